@@ -10,6 +10,7 @@ use varpulis_core::Value;
 use varpulis_runtime::event::Event;
 
 pub mod engine;
+pub mod vplsrc;
 
 /// f64 with exact textual serialisation.
 #[derive(Clone, Copy, Debug)]
